@@ -265,6 +265,9 @@ fn seam_part(run: &Run) {
             return;
         }
         let (a, b, code) = &cases[i];
+        if i % 5000 == 17 {
+            run.sample(json!({"level": "seam", "code": code, "d_q=+1": a.m.show(), "d_q=-1": b.m.show()}));
+        }
         seam_case(run, &[a.clone(), b.clone()], code);
     });
 }
@@ -282,6 +285,9 @@ fn main() {
             return;
         }
         let (name, d) = &fam[i];
+        if i % 300 == 0 {
+            run.sample(json!({"level": "link", "diagram": name, "pd": d.pd()}));
+        }
         check_link(&run, name, d, d.n <= 3);
     });
     seam_part(&run);
